@@ -187,6 +187,108 @@ C07ex(pre, post, queue) ==
     /\ Entitled(pre, post, queue, v) /\ pre.servers[pre.apps[v].server].state = "up"
     /\ post.apps[v].server # pre.apps[v].server
 
+-----------------------------------------------------------------------------
+(* C06: one partition's queue q = sequence of <<name, rank, placedAtQueueTime>> *)
+(* st supplies priorities, arrival stamps, demands and the allocations         *)
+RK(r) == IF r = UnplacedRank THEN 1000000000 ELSE r
+QApp(st, e) == st.apps[e[1]]
+Pend(e) == IF e[3] THEN 0 ELSE 1
+
+(* e1 sorts strictly before e2 inside one allocation *)
+KeyBefore(st, e1, e2) ==
+  LET a == QApp(st, e1) b == QApp(st, e2) IN
+  \/ a.prio > b.prio
+  \/ a.prio = b.prio /\ Pend(e1) < Pend(e2)
+  \/ a.prio = b.prio /\ Pend(e1) = Pend(e2) /\ a.order < b.order
+
+C06perm(st, qs) ==
+  /\ \A k \in DOMAIN qs : \A i, j \in DOMAIN qs[k] : i # j => qs[k][i][1] # qs[k][j][1]
+  /\ \A k1, k2 \in DOMAIN qs : k1 # k2 =>
+        {qs[k1][i][1] : i \in DOMAIN qs[k1]} \cap {qs[k2][i][1] : i \in DOMAIN qs[k2]} = {}
+  /\ UNION {{qs[k][i][1] : i \in DOMAIN qs[k]} : k \in DOMAIN qs} = AppNames(st)
+  /\ \A k \in DOMAIN qs : \A i, j \in DOMAIN qs[k] :
+        st.apps[qs[k][i][1]].label = st.apps[qs[k][j][1]].label
+
+C06rank(q) == \A i \in 1..(Len(q) - 1) : RK(q[i][2]) <= RK(q[i + 1][2])
+
+C06prio(st, q) ==
+  \A i, j \in DOMAIN q :
+    (i < j /\ QApp(st, q[i]).alloc = QApp(st, q[j]).alloc) => ~KeyBefore(st, q[j], q[i])
+
+C06zeroLast(st, q) ==
+  \A i, j \in DOMAIN q :
+    (i < j /\ QApp(st, q[i]).prio = 0 /\ QApp(st, q[j]).prio > 0) => RK(q[i][2]) < RK(q[j][2])
+
+(* cumulative demand of the instances of q[k]'s allocation up to position k *)
+CumDemand(st, q, k, incl) ==
+  LET x == QApp(st, q[k]).alloc
+      idx == {i \in DOMAIN q : QApp(st, q[i]).alloc = x /\ (i < k \/ (incl /\ i = k))}
+  IN [d \in DOMAIN QApp(st, q[k]).demand |->
+        FoldSet(LAMBDA i, acc : acc + QApp(st, q[i]).demand[d], 0, idx)]
+
+C06boost(st, q) ==
+  \A k \in DOMAIN q :
+    LET a == QApp(st, q[k]) al == st.allocs[a.alloc]
+        before == CumDemand(st, q, k, FALSE) after == CumDemand(st, q, k, TRUE) IN
+    (/\ a.prio > 0
+     /\ al.maxutil = NoNum \/ al.maxutil >= 1
+     /\ \A d \in DOMAIN after : after[d] <= al.reserved[d] /\ before[d] < al.reserved[d])
+      => q[k][2] = al.rank - al.adj
+
+C06cap(st, q, post) ==
+  \A k \in DOMAIN q :
+    LET a == QApp(st, q[k]) al == st.allocs[a.alloc]
+        after == CumDemand(st, q, k, TRUE) IN
+    (al.maxutil # NoNum /\ \E d \in DOMAIN after : after[d] > al.maxutil * al.reserved[d])
+      => /\ q[k][2] = UnplacedRank
+         /\ (q[k][1] \in AppNames(post) => post.apps[q[k][1]].server = NoServer)
+
+C06ex(st, q) == /\ Len(q) >= 3
+                /\ Cardinality({QApp(st, q[i]).alloc : i \in DOMAIN q}) >= 2
+                /\ Cardinality({QApp(st, q[i]).prio : i \in DOMAIN q}) >= 2
+
+-----------------------------------------------------------------------------
+(* C02 *)
+(* (a) pruning soundness of the aggregates kept on racks/pods/cell: they may  *)
+(* over-approximate but never hide an up server                              *)
+C02prune(st) ==
+  \A s \in SrvNames(st) : st.servers[s].state = "up" =>
+    \A b \in AncOf(st, s) :
+      /\ "free" \in DOMAIN st.buckets[b] =>
+           \A d \in DOMAIN st.servers[s].free : st.buckets[b].free[d] >= st.servers[s].free[d]
+      /\ "traits" \in DOMAIN st.buckets[b] => st.servers[s].traits \subseteq st.buckets[b].traits
+      /\ "labels" \in DOMAIN st.buckets[b] => st.servers[s].label \in st.buckets[b].labels
+
+(* (b) leaf-scan oracle: some up server takes the probe as it is *)
+LeafFits(st, a, s) ==
+  /\ st.servers[s].state = "up"
+  /\ st.servers[s].label = st.apps[a].label
+  /\ st.apps[a].traits \subseteq st.servers[s].traits
+  /\ (st.apps[a].lease > 0 => st.clock + st.apps[a].lease < st.servers[s].vu)
+  /\ \A d \in DOMAIN st.apps[a].demand : st.apps[a].demand[d] <= st.servers[s].free[d]
+  /\ \A n \in {s} \cup AncOf(st, s) :
+       LET lim == Limit(st.apps[a], LevelOf(st, n)) IN
+       lim = NoNum \/ TrueCount(st, n, st.apps[a].aff) < lim
+
+IdentityFree(st, a) ==
+  st.apps[a].group = "" \/ st.apps[a].identity # NoNum
+    \/ (st.apps[a].group \in DOMAIN st.groups /\ st.groups[st.apps[a].group].available # {})
+
+C02probe(pre, post, queue, a) ==
+  (/\ a \in AppNames(pre) /\ a \in AppNames(post)
+   /\ pre.apps[a].server = NoServer /\ ~pre.apps[a].blacklisted
+   /\ QPos(queue, a) # 0 /\ QRank(queue, a) # UnplacedRank
+   /\ IdentityFree(pre, a)
+   /\ \E s \in SrvNames(pre) : LeafFits(pre, a, s)
+   /\ \A i \in 1..(QPos(queue, a) - 1) :
+        queue[i][1] \in AppNames(post) /\ queue[i][1] \in AppNames(pre)
+          /\ post.apps[queue[i][1]].server = pre.apps[queue[i][1]].server)
+    => post.apps[a].server # NoServer
+
+C02ex(pre, queue, a) ==
+  /\ a \in AppNames(pre) /\ QPos(queue, a) # 0
+  /\ \E s \in SrvNames(pre) : LeafFits(pre, a, s)
+
 RetentionEnd(pre, v) ==
   LET s == pre.apps[v].server r == pre.apps[v].retention IN
   IF r = NoNum THEN 0 ELSE pre.servers[s].since + r
